@@ -205,7 +205,7 @@ cache_network_add_page		(cache_network *	cn,
 		}
 	}
 
-	if (0 == ps->subno_min /* none yet */
+	if (1 == ps->n_subpages /* none yet */
 	    || cp->subno < ps->subno_min)
 		ps->subno_min = cp->subno;
 
